@@ -355,3 +355,25 @@ def reader_algebra(pc):
                         return {"reader_algebra_checked": checked}
     return {"reader_algebra_checked": checked,
             "reader_algebra_note": "contracts.spec.RA_STATE / RA_SKIP / RA_SETCH / RA_NEXT (the facts E2 asserts of its abstract reader) hold on the real EoReader for every enumerated state"}
+
+
+def enum_contract(pc):
+    """C03's "unknown enum ordinals are preserved" rests on ProtocolEnumMeta.__call__ (E2 assumes its contract, C14):
+    the runtime contract is evaluated here too - bounded, labelled so - so that a change of the enum runtime shows
+    under the property that depends on it"""
+    from checks import c14
+    r = c14.evaluate("quick", pc.seed, budget=1500)
+    if isinstance(r, str):
+        raise RuntimeError("enum contract: " + r)
+    outs, failures = r
+    if failures:
+        f = failures[0]
+        _fail(pc, "eolib.protocol.protocol_enum_meta.ProtocolEnumMeta.__call__", f,
+              f"enum construction contract fails (bounded stand-in): {f.get('failed')}")
+    return {"enum_contract_evaluations_bounded": sum(o["evaluations"] for o in outs)}
+
+
+def c03_closure(pc):
+    out = reader_algebra(pc)
+    out.update(enum_contract(pc))
+    return out
